@@ -9,6 +9,7 @@ import (
 	_ "time/tzdata"
 
 	"go.lstv.dev/util/date"
+	"verif/firstuse"
 	"verif/mc"
 	"verif/oracle"
 )
@@ -230,6 +231,7 @@ func probeDense(a denseArg) (string, string) {
 func main() {
 	mc.Main("C11", "encode side: every real date of the stated year sets; decode side: complete grids of byte strings (all month/day byte pairs, all version bytes, all lengths 0..16, year-byte cross product); "+
 		"non-trivial = a 7-byte version-1 string (whether or not it names a real date)", func(r *mc.Run) {
+		firstuse.Phase(r, map[string][]string{"date": {"binary"}})
 		enc := mc.NewProbe(r, "encode_roundtrip", setupEnc, probeEnc)
 		r.Reset = func() { time.Local = defaultLocal }
 		dec := mc.NewProbe(r, "decode", nil, probeDec)
